@@ -41,7 +41,22 @@ def pval(v):
     if k == 'hang': return 'VHang'
     if k == 'awake': return 'VAwake'
     if k == 'unbound': return 'VUnbound'
+    if k == 'float': return '(VFloat %s)' % fw.cz(v[1])
+    if k == 'bool': return '(VBool %s)' % fw.cbool(v[1])
+    if k == 'estr': return 'VEmptyStr'
+    if k == 'elist': return 'VEmptyList'
     raise ValueError(v)
+
+
+FALSY_TESTS = ['false', '0', '0.0', '[]', "''", 'none', 'fn_false', 'fn_0', 'fn_[]', "fn_''", 'fn_none']
+TRUTHY_TESTS = ['true', '1', '[0]', "'x'", 'fn_true', 'fn_1', 'fn_[0]', "fn_'x'"]
+
+
+def ptest(t):
+    if isinstance(t, bool): return '(TBool %s)' % fw.cbool(t)
+    if t == 'err': return '(TErr false)'
+    if t == 'errbase': return '(TErr true)'
+    return '(TBool %s)' % fw.cbool(t in TRUTHY_TESTS)
 
 
 def pcall(c):
@@ -51,7 +66,7 @@ def pcall(c):
         return '(C%s %d)' % (k.capitalize(), c[1])
     if k == 'signal': return '(CSignal %d)' % c[1]
     if k == 'unhang': return '(CUnhang %d)' % c[1]
-    if k == 'settest': return '(CSetTest %d %s)' % (c[1], fw.cbool(c[2]))
+    if k == 'settest': return '(CSetTest %d %s)' % (c[1], ptest(c[2]))
     if k == 'flowset': return '(CFlowSet %d %s)' % (c[1], pval(c[2]))
     raise ValueError(c)
 
@@ -106,6 +121,10 @@ BODY = 'Eval vm_compute in bad_idx (fun c => llz_eqb (fst c) (snd c)) cases.'
 # --------------------------------------------------------------------------- generators
 def gval(rng, numeric=0.5):
     x = rng.random()
+    if x < 0.22:      # falsy values and type-tag neighbours as EXPLICIT values: 0, 0.0, False, '', [], None (+ True, 1.0)
+        return rng.choice([['int', 0], ['float', 0], ['float', 0], ['bool', False], ['bool', False], ['estr'], ['elist'],
+                           ['none'], ['bool', True], ['float', 1]])
+    x = rng.random()
     if x < numeric: return ['int', rng.choice([0, 0, 1, 1, 2, 3])]
     if x < numeric + 0.2: return ['none']
     return ['str', rng.randint(0, 3)]
@@ -132,7 +151,10 @@ def gcall(rng, nr, cells, me, mode):
                 r = rng.randrange(me + 1, nr)
         return [k, r, gval(rng)] if k == 'next' else [k, r]
     if k == 'settest':      # only plain Conditions have a settable boolean test in the model
-        return [k, rng.choice([i for i, x in enumerate(cells) if x == 'cond']), rng.random() < 0.7]
+        tv = rng.random()
+        t = (rng.random() < 0.7) if tv < 0.4 else rng.choice(TRUTHY_TESTS) if tv < 0.7 else rng.choice(FALSY_TESTS) if tv < 0.93 \
+            else rng.choice(['err', 'errbase'])
+        return [k, rng.choice([i for i, x in enumerate(cells) if x == 'cond']), t]
     if k == 'flowset':      # only FlowVars have a value
         return [k, rng.choice([i for i, x in enumerate(cells) if x == 'flow']), gval(rng)]
     return [k, rng.randrange(nc)]
@@ -215,7 +237,7 @@ def gchain(rng):
     waker = None
     if rng.random() < 0.4:      # a second played routine does the signalling
         w = [['yield', ['int', rng.choice([0, 1])]]]
-        w.append(['call', ['flowset', 0, gval(rng)], True] if flow else ['call', ['settest', 0, True], True])
+        w.append(['call', ['flowset', 0, gval(rng)], True] if flow else ['call', ['settest', 0, rng.choice(TRUTHY_TESTS)], True])
         w.append(['call', [rng.choice(['signal', 'unhang']), 0], True])
         defs.append({'kind': 'gen', 'hasin': False, 'script': w})
         waker = len(defs) - 1
@@ -230,12 +252,46 @@ def gchain(rng):
         elif flow:
             ops.append(['call', ['flowset', 0, gval(rng)]])
         else:
-            ops += [['call', ['settest', 0, rng.random() < 0.8]], ['call', ['signal', 0]]]
+            ops += [['call', ['settest', 0, rng.choice(TRUTHY_TESTS) if rng.random() < 0.8 else rng.choice(FALSY_TESTS)]], ['call', ['signal', 0]]]
         if rng.random() < 0.3:
             ops.append(['call', ['signal', 0]])
         ops += [['tick']] * rng.randint(1, 3)
     ops += [['tick']] * 2
     return {'defs': defs, 'cells': cells, 'ops': ops, 'mode': 'chain%d' % depth}
+
+
+def gfifo(rng):
+    """several played routines wait on ONE Condition / FlowVar (some of them twice, via a next() from outside while they
+    hang); then it is signalled / unhung / bound, from outside or from a further routine: order and number of resumptions"""
+    n = rng.randint(2, 4)
+    flow = rng.random() < 0.4
+    cells = ['flow' if flow else 'cond']
+    defs = []
+    for i in range(n):
+        sc = [['yield', ['int', rng.choice([0, 0, 1])]]] if rng.random() < 0.4 else []
+        sc += [['flowget', 0] if flow and rng.random() < 0.7 else ['wait', 0], ['log', ['str', i]]]
+        sc += [['wait', 0], ['log', ['str', 10 + i]]] if rng.random() < 0.4 else []
+        sc += [['yield', gval(rng)]]
+        defs.append({'kind': 'gen', 'hasin': rng.random() < 0.3, 'script': sc})
+    order = list(range(n))
+    rng.shuffle(order)
+    ops = [['call', ['play', i]] for i in order]
+    ops += [['tick']] * (n + rng.randint(0, n))
+    if rng.random() < 0.4:       # somebody resumes a hanging routine by hand: it may wait a second time
+        ops.append(['call', ['next', rng.randrange(n), ['none']]])
+    for _ in range(rng.randint(1, 2)):
+        k = rng.random()
+        if k < 0.35:
+            ops.append(['call', ['unhang', 0]])
+        elif flow:
+            ops.append(['call', ['flowset', 0, gval(rng)]])
+        else:
+            ops += [['call', ['settest', 0, rng.choice(TRUTHY_TESTS)]], ['call', ['signal', 0]]]
+        ops += [['tick']] * rng.randint(1, n + 1)
+        if not flow and rng.random() < 0.5:
+            ops.append(['call', ['settest', 0, rng.choice(FALSY_TESTS)]])
+    ops += [['tick']] * n
+    return {'defs': defs, 'cells': cells, 'ops': ops, 'mode': 'fifo%d' % n}
 
 
 CORPUS = os.path.join(fw.VERIF, 'corpus', 'C11_histories.json')
@@ -247,8 +303,11 @@ def gen_cases(ctx, n):
         cases += json.load(open(CORPUS))
     for i in range(n):
         x = ctx.rng.random()
-        if x < 0.12:
+        if x < 0.10:
             cases.append(gchain(ctx.rng))
+            continue
+        if x < 0.20:
+            cases.append(gfifo(ctx.rng))
             continue
         mode = 'plain' if x < 0.45 else 'cond' if x < 0.78 else 'reentrant'
         cases.append(gcase(ctx.rng, mode))
@@ -261,7 +320,9 @@ def strip(case):
 
 
 def run_impl(ctx, cases):
-    return ctx.impl('c11_run', {'cases': [strip(c) for c in cases]}, timeout=900)['out']
+    res = ctx.impl('c11_run', {'cases': [strip(c) for c in cases]}, timeout=900)
+    ctx.c11_probes = res.get('probes', [])
+    return res['out']
 
 
 def usable(res):
@@ -286,7 +347,8 @@ def first_diff(ctx, case, obs, cfg='patched'):
 
 
 # --------------------------------------------------------------------------- real-time part
-RT_ENDINGS = ['exhaust', 'return', 'raise', 'raise_first', 'yreset', 'always', 'function', 'nested_ends', 'nested_raises']
+RT_ENDINGS = ['exhaust', 'return', 'raise', 'raise_first', 'yreset', 'always', 'function', 'function_raises',
+              'sched_function_raises', 'nested_ends', 'nested_raises', 'late_nested']
 RT_LOOPS = [('SystemClock', '_run'), ('Scheduler', '_wakeup'), ('TempoClock', '_run')]
 SIG_AWAKE = 'C11:awake_flag_not_cleared'
 
@@ -366,6 +428,9 @@ def correspond(ctx):
     ctx.c11_rt_done = True
     cases = gen_cases(ctx, ctx.n(500, 8000))
     res = run_impl(ctx, cases)
+    for pb in ctx.c11_probes:
+        c.failures.append(Failure('search', 'aliasing probe on the implementation: ' + pb, found_input=True,
+                                  theorem='routine_transitions', replay={'probe': pb, 'how': 'harness/impl/c11_run.py:probes()'}))
     keep = [(k, r) for k, r in zip(cases, res) if usable(r)]
     c.count('cases:skipped(recursion-limit or inexpressible value)', len(cases) - len(keep))
     for k, r in keep:
